@@ -10,6 +10,7 @@ import tempfile
 from pathlib import Path
 
 from .. import VERIF_ROOT, audit, wire
+from ..msgs import request_extras
 from ..oracles import C01Monitor, trace_summary
 from ..world import InternalError, RandomPlan, Runner, World
 
@@ -40,6 +41,7 @@ def gen_cases(tier, seed):
                "cks": rng.choice(["crc32", "crc32c", "modular", "null"]), "crc": rng.random() < 0.3, "dest": rng.choice(["file", "dir", "existing", "dir_existing"]),
                "content": rng.randrange(4), "ack_limit": 3, "nak_limit": 3, "check_limit": 2, "disp": rng.random() < 0.4,
                "metadata_only": rng.random() < 0.04, "maxpkt": 128}
+        cfg.update(request_extras(rng, 0.15))  # options and (binary) messages to user in the put request
         faults = rng.choice([None, None, 0.1, 0.25, 0.4])
         cancel = None if rng.random() < 0.75 else [rng.choice("SD"), rng.randrange(1, 12)]
         reset_at = None if rng.random() < 0.9 else [rng.choice("SD"), rng.randrange(1, 12)]  # the user calls reset() in the middle of the transfer
